@@ -48,7 +48,12 @@ pub fn dn_value(v: &DnValueSpec) -> Result<DnValue, rcgen::Error> {
 pub fn dn(d: &DnSpec) -> Result<DistinguishedName, rcgen::Error> {
 	let mut out = DistinguishedName::new();
 	for (t, v) in &d.0 {
-		out.push(dn_type(t), dn_value(v)?);
+		match dn_value(v) {
+			Ok(val) => out.push(dn_type(t), val),
+			// a value that was only *offered* to the constructor is left out when refused
+			Err(_) if v.attempt => {},
+			Err(e) => return Err(e),
+		}
 	}
 	Ok(out)
 }
